@@ -4,12 +4,46 @@ import json, os
 VERIF = os.path.dirname(os.path.dirname(os.path.abspath(__file__)))
 
 # id -> (claimed, category, technique, level text, level note, design ref)
+PIPE_NOTE = ('Trusted: TLC; the virtual-time asyncio loop (integer-microsecond clock, macro-step discipline: one stimulus, run to '
+             'quiescence at the current instant, timers due at an instant fire together as in one loop iteration); harness '
+             'validators/handlers; pending-entry and attached-handler counts are read from the private tries. Bounded scope '
+             '(see evidence tlc_runs); conformance compares observables only.')
 CHECKS = {
+ 'C03': (True, 'model_checking',
+         'TLA+ spec NdnPit checked exhaustively by TLC (focused configurations, both front-ends, liveness on a small one); TLC graph transition cover + random schedules executed on appv2.NDNApp and app.NDNApp over a virtual-time loop; every execution validated by TLC (NdnPitTrace)',
+         'TLC explores every interleaving of express / Data / Nack / timer expiry / validator completion / caller cancel / shutdown / junk over up to 3 pending Interests on same and nested names (CanBePrefix, implicit digest, lifetimes 1-2 ticks) and checks OnceOnly, RightOutcome, NoResidue, AllAndOnlyMatching, NoUnvalidatedData, JunkInert and Finishes. Schedules covering every transition of a smaller graph, and random larger schedules (6 Interests, 6 names, 40 events, same-instant races in both orders), are driven into both real front-ends; after every stimulus the outcome of every awaitable, its completion instant, the pending-table size, validator invocations and any internal error are recorded and the trace is accepted only if it is a behaviour of NdnPit.',
+         PIPE_NOTE + ' Known finding KF-legacy-slow-validator is modelled as deviation legacySlowValidator (off in the strict pass).',
+         'DESIGN.md 5.1, 6/C03'),
+ 'C04': (True, 'model_checking',
+         'TLA+ spec NdnFib checked exhaustively by TLC; TLC graph transition cover (every name representation) + random attach/detach/Interest/reply histories executed on both front-ends; executions validated by TLC (NdnFibTrace); Dispatcher compared with the declarative longest-prefix definition',
+         'TLC checks on all attach / duplicate-attach / detach histories over a 5-name tree (root included) that the operational trie walk equals the declarative longest attached prefix, each Interest reaches at most one handler, refused attach and detach leave other prefixes untouched, and the reply callback sends only up to the deadline and returns True exactly when it sent. The graph cover is executed on appv2 (attach_handler/detach_handler) and legacy (set_interest_filter/unset_interest_filter) with URI / str-list / bytes / bytearray / memoryview / wire representations, handler identity observed through harness closures, and judged by TLC trace validation.',
+         PIPE_NOTE + ' Reply callback exists only in appv2. At now = deadline sending or refusing are both accepted.',
+         'DESIGN.md 5.1, 6/C04'),
+ 'C05': (True, 'model_checking',
+         'TLA+ specs NdnPit (verdict dimension open) and NdnFib (digest/validator gate) checked by TLC; transition covers and random schedules with harness validators of scheduled verdict and latency executed on both front-ends; validated by TLC trace modules',
+         'TLC checks NoUnvalidatedData (Data is returned only by the step in which the validator of that entry returns an accepting verdict no later than the deadline; other verdicts give a failure carrying packet and verdict; a validator still running at the deadline gives timeout) over all six v2 verdicts incl. a validator raising TimeoutError and legacy truthy/falsy values, and IntGate (parameterised/signed Interests need a correct parameters digest and an accepting verdict of the validator in force; plain ones bypass it) over all parameter/signature/digest combinations. Both are bound to the code by replaying TLC-generated and random schedules and validating the recorded traces with TLC.',
+         PIPE_NOTE + ' Known finding KF-legacy-slow-validator (legacy front-end never turns a slow Data validator into a timeout) is reported as KNOWN-FINDING.',
+         'DESIGN.md 5.1, 6/C05'),
+ 'C06': (True, 'model_checking',
+         'TLA+ spec Framing (all chunkings as Feed interleavings) checked by TLC and bound to the real StreamFace.run via FramingTrace; RecvJunk inertness in NdnPit/NdnFib checked by TLC and bound by delivering a mutation corpus in random pipeline states of both front-ends and to the datagram handler',
+         'Framing: TLC enumerates packet sequences with 1/3/5/9-byte type and length forms, every truncation point and every way of cutting the stream into reads, checking that exactly the complete packets are delivered once, in order, never early, and that the reader stops at end of stream. The transition cover, every chunking x truncation of short streams and random chunkings of streams with real multi-byte lengths run on a real asyncio.StreamReader + StreamFace.run and are judged by TLC. Robustness: >2000 malformed / truncated / fragment / unknown / unaddressed byte strings are delivered through _receive of both front-ends in random PIT/FIB states (and to UdpFace.datagram_received); the trace is accepted only if the junk step changes nothing, raises nothing, and the untouched Interests still complete as the spec says.',
+         PIPE_NOTE + ' Mutants of packets that address pending state are used only when the independent strict TLV reader finds them structurally malformed.',
+         'DESIGN.md 5.2, 6/C06'),
+ 'C09': (True, 'model_checking',
+         'TLA+ reference NameUri checked by TLC on enumerated domains (NameUriMC); TLC-computed spellings/wires/sorted domains replayed on ndn.encoding.Name/Component; library outputs judged by TLC (NameUriJudge)',
+         'TLC evaluates an executable TLA+ reference of the NDN name grammar over exhaustive bounded domains and checks that shorthand and canonical text round-trip, every generated spelling/slash variant/wire form denotes the same name, canonical text uses no shorthand, byte order of shortest-form encodings equals NDN canonical order, and the prefix test equals component-wise equality. Every enumerated state is replayed into Name/Component in every accepted input form and every pair compared with Python ordering and is_prefix; library printing of the enumerated components and of random larger names is parsed back by the reference inside TLC.',
+         'Trusted: TLC, the transcription of the documented grammar, Python bytes/list comparison. Bounded: exhaustive over 5343 components, names <=3 components over 14/30 representatives, 85/400 names pairwise; random names <=8 components, values <=300 bytes. Not compared: order of the full Name TLV including its outer length; what the library accepts beyond the reference grammar.',
+         'DESIGN.md 5.4, 6/C09'),
  'C19': (True, 'model_checking',
          'TLA+ spec SegFetch checked exhaustively by TLC; TLC state-graph transition cover replayed on segment_fetcher; recorded executions validated by TLC (SegFetchTrace)',
          'TLC visits every object shape x discovery answer x final marker x retry limit x loss/Nack/validation-failure pattern in the bound and checks InOrderOnce, DoneComplete, RetryBound, FailsIffExhausted, NoSkip, Terminates; every transition of that graph is then driven through the real generator on a virtual-time loop with the projection compared after each step, and larger random executions are accepted only if SegFetchTrace can explain every event.',
          'Trusted: TLC, the virtual-time loop, the harness producer. Bounded: <=4 segments/3 retries exhaustively, <=12 segments/5 retries in traces.',
          'DESIGN.md 6/C19'),
+ 'C20': (True, 'model_checking',
+         'TLA+ reference ClientConf checked by TLC over the enumerated product (ClientConfMC); each state materialised on disk/environment and compared with read_client_conf, default_keychain, default_face; random configurations judged by TLC (ClientConfJudge)',
+         'TLC enumerates the product of configuration sources (file existence patterns x key present/absent/commented x environment subsets x store-location classes x default-location existence) and transport URIs. The clauses of the statement are invariants on a layered reference. Every state is materialised in a scratch tree with an injected Platform and compared with read_client_conf / default_keychain / default_face; random larger configurations and URIs are judged by TLC.',
+         'Trusted: TLC; replacing the Platform singleton by a Linux subclass whose path lists point into the scratch tree (real Linux lists checked separately under a patched HOME); macOS/Windows classes not importable. Bounded: 4 candidate files with <=2 existing exhaustively, <=6 files in random runs. When neither the given location nor any default exists any candidate is accepted.',
+         'DESIGN.md 5.11, 6/C20'),
 }
 
 NOT_YET = {}
